@@ -10,11 +10,14 @@ NOTE = ("Trusted base: the level-A transcription of Python/numpy semantics (spec
         "within the constants of spec/mc/*.cfg; beyond them sampled. 32/64-bit arithmetic in the no-overflow regime; floats are small dyadic rationals.")
 
 # property -> (design section, level text)
+_FN = ("Model checking of the level-A specification of this operation family over every shape up to the configured bounds x the argument grammar "
+       "(TLC also checks the stated model-level lemmas on every state), with every enumerated state executed against the real code on fresh arrays "
+       "and on pending views, plus TLC trace validation of seeded random cases (all dtypes, larger shapes, extremes). Right level because the property "
+       "is a universally quantified functional equivalence with rich case analysis: exhaustive small scope plus an independent oracle (Python/numpy "
+       "semantics transcribed into TLA+), not sampled assertions on hand-picked inputs.")
 CLAIMED = {
-    "C02": ("5 C02", "Model checking of the level-A indexing specification (Python list semantics) over every shape up to the configured bounds x the "
-            "selector grammar, with every enumerated state executed against RaggedArray.__getitem__ (fresh arrays and pending views), plus TLC trace "
-            "validation of seeded random index expressions on larger arrays. The right level because the property is a universally quantified "
-            "functional equivalence with rich case analysis (clamping, negative steps, empty rows): exhaustive small scope + an independent oracle."),
+    "C01": ("5 C01", _FN), "C02": ("5 C02", _FN), "C03": ("5 C03", _FN), "C04": ("5 C04", _FN), "C05": ("5 C05", _FN),
+    "C07": ("5 C07", _FN), "C08": ("5 C08", _FN), "C09": ("5 C09", _FN),
 }
 PENDING = {}
 
